@@ -219,7 +219,7 @@ impl Property for C14 {
         ctx.space("documents over the 8-symbol class-edge alphabet", total2);
         ctx.stats.nt_disjoint += local.len() as u64;
         }
-        let cases = ctx.tier.pick(2_000, 50_000);
+        let cases = ctx.tier.pick(8_000, 50_000);
         ctx.run_streams("c14-long", cases, 3000, |ctx, bytes| {
             let mut c = Choices::new(bytes);
             let mut text = String::new();
